@@ -1,6 +1,8 @@
 package props
 
 import (
+	"go/token"
+	"os"
 	"fmt"
 	"go/types"
 	"sort"
@@ -94,6 +96,15 @@ func checkC19(c *core.Ctx, r *core.Report) {
 	var builderHits []bhit
 	seenB := map[ssa.CallInstruction]bool{}
 	pure := map[*ssa.Function]int{}
+	structuralValidators = computeStructuralValidators(c)
+	{
+		var names []string
+		for fn := range structuralValidators {
+			names = append(names, shortFn(fn))
+		}
+		sort.Strings(names)
+		r.Check(len(names) >= 2, "TAINT", "single-path-element-validators-recognised", "-", "functions whose true result implies a single path element (by the shape of their body): "+strings.Join(names, ", "), "fewer than two single-path-element validators recognised: "+strings.Join(names, ", "))
+	}
 	validates := validatingFunctions(c)
 	r.Count("functions_validating_a_parameter_on_success", len(validates))
 	fullSeeds, segSeeds := 0, 0
@@ -129,6 +140,18 @@ func checkC19(c *core.Ctx, r *core.Report) {
 			switch f.Pkg().Path() + "." + f.Name() {
 			case "path/filepath.Base", "path.Base":
 				return false, true // sanitiser: the result has no separator and is not a parent reference beyond the joined directory
+			case "path/filepath.Join", "path.Join":
+				// Join("/", x...) cleans x as a rooted path: the result has no leading dot-dot element, so joining it
+				// onto a directory stays inside that directory
+				if args := call.Common().Args; len(args) == 1 {
+					if sl, ok := args[0].(*ssa.Slice); ok {
+						if first := firstVarargElement(sl); first != nil {
+							if k, ok := core.ConstStringValue(first); ok && k == "/" {
+								return false, true
+							}
+						}
+					}
+				}
 			case "github.com/sirupsen/logrus.Errorf", "github.com/sirupsen/logrus.Infof", "github.com/sirupsen/logrus.Warnf", "github.com/sirupsen/logrus.Debugf",
 				"github.com/sirupsen/logrus.Error", "github.com/sirupsen/logrus.Info", "github.com/sirupsen/logrus.Warn":
 				return false, true
@@ -153,7 +176,13 @@ func checkC19(c *core.Ctx, r *core.Report) {
 			}
 			// small pure string helpers are analysed per call site (context sensitivity where it is cheap)
 			if callee := call.Common().StaticCallee(); callee != nil && isPureStringHelper(callee, pure, 0) {
-				return true, true
+				prop := false
+				for _, ti := range tainted {
+					if pureHelperPropagates(callee, ti, 0) {
+						prop = true
+					}
+				}
+				return prop, true
 			}
 			return false, false
 		}
@@ -243,7 +272,16 @@ func checkC19(c *core.Ctx, r *core.Report) {
 			}
 		}
 	}
-	full.Run()
+	r.Count("map_carriers_with_request_derived_keys", full.RunWithMapKeys())
+	if q := os.Getenv("VERIF_TAINT_FN"); q != "" {
+		for v := range full.Values() {
+			if in, ok := v.(ssa.Instruction); ok && in.Parent() != nil && strings.Contains(in.Parent().String(), q) {
+				fmt.Fprintf(os.Stderr, "TAINTED %s: %s = %s @%s\n", in.Parent(), v.Name(), v, c.Pos(in.Pos()))
+			} else if p, ok := v.(*ssa.Parameter); ok && strings.Contains(p.Parent().String(), q) {
+				fmt.Fprintf(os.Stderr, "TAINTED %s: param %s\n", p.Parent(), p.Name())
+			}
+		}
+	}
 	r.Count("request_data_source_sites", fullSeeds)
 	r.Count("router_path_parameter_sites", segSeeds)
 	r.Count("percent_decoded_path_parameters", upgraded)
@@ -371,8 +409,136 @@ func checkC19(c *core.Ctx, r *core.Report) {
 // validatorTable: boolean functions whose true result means "the argument is a
 // single, harmless path element / a server-generated id".
 var validatorTable = map[string]bool{
-	core.ModPath + "/pkg/scroll.IsScrollIdValid":  true,
-	core.ModPath + "/pkg/utils.IsValidIndexName": true,
+	core.ModPath + "/pkg/scroll.IsScrollIdValid": true, // membership in the server's table of issued scroll ids
+}
+
+// structuralValidators: every repository function func(string) bool whose true result implies, by the shape
+// of its body, that the argument is a single path element: (x == filepath.Base(x), or x contains none of a
+// constant character set that includes "/") and x != "..".  The set is recomputed from the current sources
+// on every run, so a validator whose body stops validating stops being one.
+var structuralValidators map[*ssa.Function]bool
+
+func computeStructuralValidators(c *core.Ctx) map[*ssa.Function]bool {
+	out := map[*ssa.Function]bool{}
+	for _, fn := range c.RepoFunctions() {
+		if fn.Parent() != nil || fn.Blocks == nil || len(fn.Params) != 1 || fn.Signature.Results().Len() != 1 {
+			continue
+		}
+		if pb, ok := fn.Params[0].Type().Underlying().(*types.Basic); !ok || pb.Info()&types.IsString == 0 {
+			continue
+		}
+		if rb, ok := fn.Signature.Results().At(0).Type().Underlying().(*types.Basic); !ok || rb.Kind() != types.Bool {
+			continue
+		}
+		x := ssa.Value(fn.Params[0])
+		// atoms: value -> (kind, polarity); kind 0 = no separator, 1 = not dot-dot
+		type atom struct {
+			kind int
+			pos  bool
+		}
+		atoms := map[ssa.Value]atom{}
+		for _, b := range fn.Blocks {
+			for _, in := range b.Instrs {
+				switch y := in.(type) {
+				case *ssa.BinOp:
+					if y.Op != token.EQL && y.Op != token.NEQ {
+						continue
+					}
+					other := ssa.Value(nil)
+					if y.X == x {
+						other = y.Y
+					} else if y.Y == x {
+						other = y.X
+					}
+					if other == nil {
+						continue
+					}
+					if s, ok := core.ConstStringValue(other); ok && s == ".." {
+						atoms[y] = atom{1, y.Op == token.NEQ}
+					}
+					if call, ok := other.(*ssa.Call); ok {
+						if f := core.CalleeFunc(call); f != nil && f.Pkg() != nil && (f.Pkg().Path() == "path/filepath" || f.Pkg().Path() == "path") && f.Name() == "Base" && len(call.Call.Args) == 1 && call.Call.Args[0] == x {
+							atoms[y] = atom{0, y.Op == token.EQL}
+						}
+					}
+				case *ssa.Call:
+					f := core.CalleeFunc(y)
+					if f == nil || f.Pkg() == nil || f.Pkg().Path() != "strings" || len(y.Call.Args) != 2 || y.Call.Args[0] != x {
+						continue
+					}
+					if k, ok := core.ConstStringValue(y.Call.Args[1]); ok {
+						if (f.Name() == "ContainsAny" && strings.Contains(k, "/")) || (f.Name() == "Contains" && k == "/") {
+							atoms[y] = atom{0, false} // the call being true means a separator is present
+						}
+					}
+				case *ssa.UnOp:
+					if y.Op == token.NOT {
+						if a, ok := atoms[y.X]; ok {
+							atoms[y] = atom{a.kind, !a.pos}
+						}
+					}
+				}
+			}
+		}
+		if len(atoms) == 0 {
+			continue
+		}
+		knownAt := func(kind int, at *ssa.BasicBlock) bool {
+			for v, a := range atoms {
+				if a.kind != kind {
+					continue
+				}
+				k := core.BoolKnownAt(v, at)
+				if (a.pos && k == core.Yes) || (!a.pos && k == core.No) {
+					return true
+				}
+			}
+			return false
+		}
+		var holds func(kind int, v ssa.Value, at *ssa.BasicBlock, depth int) bool
+		holds = func(kind int, v ssa.Value, at *ssa.BasicBlock, depth int) bool {
+			if depth > 6 {
+				return false
+			}
+			if k, ok := v.(*ssa.Const); ok && k.Value != nil && k.Value.String() == "false" {
+				return true // this value is never true
+			}
+			if a, ok := atoms[v]; ok && a.kind == kind && a.pos {
+				return true
+			}
+			if ph, ok := v.(*ssa.Phi); ok {
+				for i, e := range ph.Edges {
+					if !holds(kind, e, ph.Block().Preds[i], depth+1) {
+						return false
+					}
+				}
+				return true
+			}
+			return knownAt(kind, at)
+		}
+		ok := true
+		for _, ret := range core.Returns(fn) {
+			v := core.RetResult(ret, 0)
+			if !holds(0, v, ret.Block(), 0) || !holds(1, v, ret.Block(), 0) {
+				ok = false
+			}
+		}
+		if ok {
+			out[fn] = true
+		}
+	}
+	return out
+}
+
+func isValidatorCall(l *ssa.Call) bool {
+	f := core.CalleeFunc(l)
+	if f != nil && f.Pkg() != nil && validatorTable[f.Pkg().Path()+"."+f.Name()] {
+		return true
+	}
+	if callee := l.Call.StaticCallee(); callee != nil && structuralValidators[callee] {
+		return true
+	}
+	return false
 }
 
 // membershipChecked: v (or another load of the same variable) was used as the
@@ -408,7 +574,7 @@ func membershipChecked(c *core.Ctx, v ssa.Value, user ssa.Instruction) bool {
 				if f == nil || f.Pkg() == nil {
 					continue
 				}
-				if validatorTable[f.Pkg().Path()+"."+f.Name()] && okCall(l) {
+				if isValidatorCall(l) && okCall(l) {
 					return true
 				}
 				// x == filepath.Base(x)
@@ -646,4 +812,123 @@ func validatedByCallee(c *core.Ctx, v ssa.Value, user ssa.Instruction, validates
 		}
 	}
 	return false
+}
+
+// firstVarargElement: the value stored into element 0 of the array behind a variadic argument slice.
+func firstVarargElement(sl *ssa.Slice) ssa.Value {
+	alloc, ok := sl.X.(*ssa.Alloc)
+	if !ok || alloc.Referrers() == nil {
+		return nil
+	}
+	for _, r := range *alloc.Referrers() {
+		ia, ok := r.(*ssa.IndexAddr)
+		if !ok {
+			continue
+		}
+		if k, ok := core.ConstIntValue(ia.Index); !ok || k != 0 || ia.Referrers() == nil {
+			continue
+		}
+		for _, u := range *ia.Referrers() {
+			if st, ok := u.(*ssa.Store); ok && st.Addr == ia {
+				return st.Val
+			}
+		}
+	}
+	return nil
+}
+
+type pureKey struct {
+	fn *ssa.Function
+	i  int
+}
+
+var pureProp = map[pureKey]int{}
+
+// isConfiningCall: the result of the call is a confined name whatever its arguments are
+// (filepath.Base(x), filepath.Join("/", x...)).
+func isConfiningCall(call ssa.CallInstruction) bool {
+	f := core.CalleeFunc(call)
+	if f == nil || f.Pkg() == nil {
+		return false
+	}
+	switch f.Pkg().Path() + "." + f.Name() {
+	case "path/filepath.Base", "path.Base":
+		return true
+	case "path/filepath.Join", "path.Join":
+		if args := call.Common().Args; len(args) == 1 {
+			if sl, ok := args[0].(*ssa.Slice); ok {
+				if first := firstVarargElement(sl); first != nil {
+					if k, ok := core.ConstStringValue(first); ok && k == "/" {
+						return true
+					}
+				}
+			}
+		}
+	}
+	return false
+}
+
+// pureHelperPropagates: in a pure string helper, can a parameter reach a result without passing a confining call?
+func pureHelperPropagates(fn *ssa.Function, pi int, depth int) bool {
+	key := pureKey{fn, pi}
+	if v, ok := pureProp[key]; ok {
+		return v == 1
+	}
+	pureProp[key] = 1
+	if depth > 2 || pi < 0 || pi >= len(fn.Params) {
+		return true
+	}
+	seen := map[ssa.Value]bool{}
+	reaches := false
+	var visit func(v ssa.Value)
+	visit = func(v ssa.Value) {
+		if seen[v] || reaches {
+			return
+		}
+		seen[v] = true
+		refs := v.Referrers()
+		if refs == nil {
+			return
+		}
+		for _, in := range *refs {
+			switch x := in.(type) {
+			case *ssa.Return:
+				reaches = true
+			case *ssa.Store:
+				if x.Val == v {
+					switch a := x.Addr.(type) {
+					case *ssa.IndexAddr:
+						visit(a.X)
+					default:
+						visit(x.Addr)
+					}
+				}
+			case ssa.CallInstruction:
+				if isConfiningCall(x) {
+					continue
+				}
+				if callee := x.Common().StaticCallee(); callee != nil && core.IsRepoPkg(core.FnPkgPath(callee)) && callee.Blocks != nil {
+					any := false
+					for ai, a := range x.Common().Args {
+						if a == v && pureHelperPropagates(callee, ai, depth+1) {
+							any = true
+						}
+					}
+					if !any {
+						continue
+					}
+				}
+				if val := x.Value(); val != nil {
+					visit(val)
+				}
+			case ssa.Value:
+				visit(x)
+			}
+		}
+	}
+	visit(fn.Params[pi])
+	if !reaches {
+		pureProp[key] = 2
+	}
+	return reaches
 }
